@@ -315,17 +315,16 @@ fn make_cb(w: &W, kind: Cb, done: Ev) -> impl FnOnce() + Send + 'static {
                         g.next_item
                     };
                     s.send(item);
+                    // only when nothing else (a pending async task) still holds the sender: `s` + the stored handle
+                    let last = Arc::strong_count(&s) == 2;
                     drop(s);
                     let mut g = w.lock().unwrap();
                     g.log.push(Ev::Accepted { item, via: Via::Send, waited: false });
-                    // drop the harness's handle too: if no async task holds a clone this closes the channel
-                    if let Some(last) = g.sender.take() {
-                        let closing = Arc::strong_count(&last) == 1;
+                    if last {
+                        let stored = g.sender.take();
                         drop(g);
-                        drop(last);
-                        if closing {
-                            w.lock().unwrap().log.push(Ev::SenderDropped);
-                        }
+                        drop(stored);
+                        w.lock().unwrap().log.push(Ev::SenderDropped);
                     }
                 }
             }
@@ -642,6 +641,10 @@ fn run_inner(case: &Case) -> Trace {
             if q == 0 && idle && cbs && tasks_done {
                 break;
             }
+            if cur_sender(&w).is_none() {
+                // a callback dropped the last sender (Cb::SendDrop): go on to the termination phase
+                break;
+            }
             n += 1;
             if n > bound {
                 stuck = Some(format!(
@@ -661,8 +664,10 @@ fn run_inner(case: &Case) -> Trace {
             }
         }
         let s = w.lock().unwrap().sender.take();
-        drop(s);
-        log(&w, Ev::SenderDropped);
+        if s.is_some() {
+            drop(s);
+            log(&w, Ev::SenderDropped);
+        }
     }
     // phase 2: sender gone; the receiver must deliver what is queued and terminate
     if stuck.is_none() {
